@@ -260,7 +260,7 @@ def _same_ag(sx, a, b):
 
 def jobs(tier):
     quick = tier == 'quick'
-    o = dict(timeout_ms=15000, budget_s=(300 if tier == 'quick' else 600), max_paths=20000)
+    o = dict(timeout_ms=15000, budget_s=(120 if tier == 'quick' else 600), max_paths=20000)
     capmax = 3 if quick else 4
     kinds = ['uniform', 'first', 'zero', 'tabular']
     for i, sh in enumerate(SHAPES):
